@@ -6,13 +6,16 @@ import (
 	"errors"
 	"fmt"
 	"os"
+	"path/filepath"
 	"sort"
 	"strings"
+	"time"
 
 	"github.com/KevoDB/kevo/pkg/config"
 	"github.com/KevoDB/kevo/pkg/engine"
 	"github.com/KevoDB/kevo/pkg/engine/storage"
 	"github.com/KevoDB/kevo/pkg/zzverif/vsched"
+	"github.com/KevoDB/kevo/pkg/zzverif/vtime"
 )
 
 // EngCfg is one engine configuration class.
@@ -44,8 +47,10 @@ type EngOp struct {
 
 func (o EngOp) String() string {
 	switch o.Kind {
-	case "put":
-		return fmt.Sprintf("put(%q)", o.Key)
+	case "put", "putF":
+		return fmt.Sprintf("%s(%q)", o.Kind, o.Key)
+	case "delF":
+		return fmt.Sprintf("delF(%q)", o.Key)
 	case "del":
 		return fmt.Sprintf("del(%q)", o.Key)
 	case "txc", "txr", "txa", "txclosed":
@@ -78,6 +83,7 @@ type EngRun struct {
 	Errs    []string
 	History []string // values ever written per step (for diagnostics)
 	Seqs    []uint64 // storage_last_sequence after every step
+	EffectiveCompactions int // compact / crange steps that changed the set of table files
 }
 
 func writeManifest(dir string, c EngCfg) error {
@@ -212,12 +218,32 @@ func (r *EngRun) Apply(o EngOp) error {
 				err = rerr
 			}
 		}
+	case "putF", "delF":
+		// a write that ends up in its own level-0 file: write, switch the memtable, let the background flush run
+		if o.Kind == "putF" {
+			v := r.val(o)
+			if err = r.Eng.Put([]byte(o.Key), v); err == nil {
+				r.Model[o.Key] = v
+			}
+		} else if err = r.Eng.Delete([]byte(o.Key)); err == nil {
+			delete(r.Model, o.Key)
+		}
+		if sm, ok := r.Eng.VerifStorage().(*storage.Manager); ok {
+			sm.VerifSwitch()
+			vsched.Quiesce()
+		}
+	case "clock":
+		vtime.Advance(25 * time.Hour)
 	case "flush":
 		err = r.Eng.FlushImMemTables()
 	case "bg":
 		vsched.Quiesce()
 	case "compact":
+		before := listSST(filepath.Join(r.Dir, "sst"))
 		err = r.Eng.TriggerCompaction()
+		if listSST(filepath.Join(r.Dir, "sst")) != before {
+			r.EffectiveCompactions++
+		}
 	case "crange":
 		var lo, hi []byte
 		if o.Lo != "" {
@@ -226,7 +252,11 @@ func (r *EngRun) Apply(o EngOp) error {
 		if o.Hi != "" {
 			hi = []byte(o.Hi)
 		}
+		before := listSST(filepath.Join(r.Dir, "sst"))
 		err = r.Eng.CompactRange(lo, hi)
+		if listSST(filepath.Join(r.Dir, "sst")) != before {
+			r.EffectiveCompactions++
+		}
 	case "reopen":
 		if cerr := r.Eng.Close(); cerr != nil {
 			r.Errs = append(r.Errs, fmt.Sprintf("step %d close: %v", r.Step, cerr))
